@@ -232,6 +232,7 @@ type tplProg struct {
 	mods      map[string]string
 	blocks    []string
 	multiFile bool
+	lowLimit  bool // has a format() call that exceeds a string limit of 256 for some inputs
 }
 
 func genTemplateProgram(t *rapid.T, allowErr bool) *tplProg {
@@ -247,7 +248,7 @@ func genTemplateProgram(t *rapid.T, allowErr bool) *tplProg {
 	}
 	w := func(format string, args ...interface{}) { fmt.Fprintf(&tp.src, format, args...) }
 	for b := 1; b <= n; b++ {
-		kind := []string{"strconst", "strconst", "closure", "closure", "module", "module", "stdlib", "mutinput", "mutinput", "literals", "hostmod", "loop", "mutimm", "mutimm"}[rapid.IntRange(0, 13).Draw(t, "block")]
+		kind := []string{"strconst", "strconst", "closure", "closure", "module", "module", "stdlib", "mutinput", "mutinput", "literals", "hostmod", "loop", "mutimm", "mutimm", "format", "format"}[rapid.IntRange(0, 15).Draw(t, "block")]
 		if singleFile && kind == "module" {
 			kind = "closure"
 		}
@@ -301,6 +302,15 @@ func genTemplateProgram(t *rapid.T, allowErr bool) *tplProg {
 			w("hm%[1]d := import(\"hostmod\")\nan%[1]d := hm%[1]d.answer + in0\nnm%[1]d := hm%[1]d.name + \"!\"\ncn%[1]d := hm%[1]d.count(1, in0, in1)\npi%[1]d := hm%[1]d.pi * 2\n", b)
 			if !openFindings[f12] {
 				w("nc%[1]d := hm%[1]d.name[0]\n", b)
+			}
+		case "format":
+			// the formatter keeps its printers in a pool shared by every VM
+			w("fm%[1]d := format(\"%%0%[2]dd|%%s|%%v|%%x\", in0, in1, in2, in0)\nfq%[1]d := format(\"%%q %%5.2f %%-8v|\", in1, 2.5, in3.a)\n", b, rapid.IntRange(3, 30).Draw(t, "tplWidth"))
+			w("fl%[1]d := 0\nfor i%[1]d := 0; i%[1]d < %[2]d; i%[1]d++ { fl%[1]d += len(format(\"%%d-%%s-%%v\", i%[1]d, in1, [i%[1]d, in0])) }\n", b, rapid.IntRange(1, 30).Draw(t, "tplFmtLoops"))
+			if allowErr && rapid.IntRange(0, 2).Draw(t, "overLimit") == 0 {
+				// over the (lowered) string limit for some inputs: that run fails
+				tp.lowLimit = true
+				w("if in0 %% 2 == 1 {\n\tbig%[1]d := format(\"%%300d\", in0)\n}\n", b)
 			}
 		case "loop":
 			w("t%[1]d := 0\nfor i%[1]d := 0; i%[1]d < %[2]d; i%[1]d++ { t%[1]d += (i%[1]d * 3 + in0) %% 7 }\n", b, rapid.IntRange(10, 200).Draw(t, "tplN"))
@@ -382,6 +392,9 @@ func subset(t *rapid.T, in map[string]*lang.Val) map[string]*lang.Val {
 func genClonesTemplate(t *rapid.T) *payload {
 	tp := genTemplateProgram(t, true)
 	p := &payload{Kind: "clones", Family: "template", Source: tp.src.String(), Modules: tp.mods, Base: tplInputs(t, true)}
+	if tp.lowLimit {
+		p.MaxStrLen = 256
+	}
 	k := drawClones(t)
 	part := func(i int, mayReplace bool) partCfg {
 		c := partCfg{Runs: drawRuns(t), Reset: rapid.Bool().Draw(t, "reset"), Ctx: rapid.IntRange(0, 4).Draw(t, "ctx") == 0,
